@@ -38,7 +38,7 @@ type C13Params struct {
 	Plans  []simrt.Plan `json:"plans"`
 }
 
-func drawYamlFile(t *rapid.T, label, ruleID, ext string) (C13File, string) {
+func drawYamlFile(t *rapid.T, label, ruleID, ext string, maxTests int) (C13File, string) {
 	f := C13File{RuleID: ruleID}
 	add := func(kind, prefix string, test int, text string) {
 		f.Lines = append(f.Lines, yamlLine{Kind: kind, Prefix: prefix, Test: test, Text: text})
@@ -50,7 +50,7 @@ func drawYamlFile(t *rapid.T, label, ruleID, ext string) (C13File, string) {
 		add("other", "", 0, "  name: "+ruleID+"."+ext)
 	}
 	add("other", "", 0, "tests:")
-	n := drawInt(t, 0, 6, label+"-ntests")
+	n := drawInt(t, 0, maxTests, label+"-ntests")
 	// field layout: id only, title only, both, or mixed per test
 	layout := pick(t, []string{"id", "id", "title", "both", "mixed"}, label+"-layout")
 	kinds := map[string]bool{}
@@ -208,7 +208,11 @@ func genC13(t *rapid.T, tier string) (*World, any) {
 	ids := []string{"942100", "942110", "942120"}
 	for i := 0; i < n; i++ {
 		ext := pick(t, []string{"yaml", "yaml", "yml"}, "ext")
-		f, content := drawYamlFile(t, fmt.Sprintf("f%d", i), ids[i], ext)
+		maxTests := 6
+		if tier == "thorough" {
+			maxTests = 20
+		}
+		f, content := drawYamlFile(t, fmt.Sprintf("f%d", i), ids[i], ext, maxTests)
 		f.Path = dir + ids[i] + "." + ext
 		w.Put(f.Path, content)
 		p.Files = append(p.Files, f)
